@@ -1397,6 +1397,21 @@ impl<'a> Gen<'a> {
                 };
                 let r = *self.r.pick(&[2.0, -2.0, 0.5, 3.0]);
                 out.push(Stmt::Call(call("sink", vec![Expr::bin(BinOp::IDiv, l, num(r))])));
+                if depth < 4 && self.r.chance(1, 3) {
+                    // ... and a later floor division in a scope where `math` is not the library (a parameter / a local)
+                    let div = Expr::bin(BinOp::IDiv, name("n"), num(2.0));
+                    if self.r.bool() {
+                        let body = Block { stmts: vec![Stmt::Return(vec![div])] };
+                        let f = Expr::Function(Rc::new(FuncBody { params: vec![b("math"), b("n")], is_vararg: false, vararg_ty: None, generics: None, ret_ty: None, body, attributes: vec![] }));
+                        out.push(Stmt::Call(call("sink", vec![Expr::call(Expr::paren(f), vec![Expr::str("not the library"), num(9.0)])])));
+                    } else {
+                        let inner = vec![
+                            Stmt::Local { names: vec![b("math"), b("n")], values: vec![Expr::Table(vec![]), num(9.0)], is_const: false },
+                            Stmt::Call(call("sink", vec![div])),
+                        ];
+                        out.push(Stmt::Do(Block { stmts: inner }));
+                    }
+                }
             }
             8 if self.f.types => {
                 self.idiom("typed_local");
